@@ -15,7 +15,7 @@
     failures (C19) are not modelled here.  The footer encoder is a section variable (the proofs assume its
     round trip, the extraction instantiates Thrift/ParquetMetaModel.write_file_metadata). *)
 From Coq Require Import NArith ZArith List Bool.
-From Carquet Require Import Base.Res Gen.Enums_gen Gen.Writer_gen Enc.DeltaBits
+From Carquet Require Import Base.Res Gen.Enums_gen Gen.Consts_gen Gen.Writer_gen Enc.DeltaBits
      Writer.TableSpec Writer.PageWriterModel Writer.ColumnWriterModel.
 Import ListNotations.
 Local Open Scope N_scope.
@@ -38,7 +38,7 @@ Record rg_meta : Type := mkrg {
   rg_total_byte_size : N;
   rg_file_offset : N;
   rg_total_compressed : N;
-  rg_ordinal : N
+  rg_ordinal : option N            (* has_ordinal / ordinal: present while it fits the format's i16 *)
 }.
 
 Record file_meta : Type := mkfm {
@@ -70,6 +70,18 @@ Record fw : Type := mkfw {
 Definition fw_init (sch : list column) (o : options) : fw := mkfw sch o None 0 [] 0 0 false [].
 
 Definition OK : Z := E_CARQUET_OK.
+
+(** the limits of carquet's own metadata parser (parquet_types.c), which the writer stays within *)
+Definition MAX_ROW_GROUPS : N := Pq_CARQUET_MAX_ROW_GROUPS.
+Definition MAX_SCHEMA_ELEMENTS : N := Pq_CARQUET_MAX_SCHEMA_ELEMENTS.
+Definition MAX_COLUMNS_PER_RG : N := Pq_CARQUET_MAX_COLUMNS_PER_RG.
+
+(** add_column_internal refuses the column that would exceed them *)
+Definition schema_fits (sch : list column) : bool :=
+  (len sch + 1 <=? MAX_SCHEMA_ELEMENTS) && (len sch <=? MAX_COLUMNS_PER_RG).
+
+(** RowGroup.ordinal is an i16 *)
+Definition ordinal_of (n : N) : option N := if n <=? 32767 then Some n else None.
 
 (** the codec tag recorded in the footer: carquet's LZ4 pages are bare blocks = LZ4_RAW *)
 Definition codec_tag (codec : Z) : Z :=
@@ -104,6 +116,9 @@ Section FileWriter.
   (** carquet_writer_write_batch -> (state, status) *)
   Definition fw_write_batch (w : fw) (col : nat) (b : batch) : res (fw * Z) :=
     if Nat.leb (length (f_schema w)) col then Ok (w, E_CARQUET_ERROR_INVALID_ARGUMENT) else
+    (* ensure_row_group: a row group beyond the parser's limit is not started *)
+    if match f_cur w with None => MAX_ROW_GROUPS <=? len (f_groups w) | Some _ => false end
+    then Ok (ensure_header w, E_CARQUET_ERROR_INVALID_METADATA) else
     let w1 := ensure_row_group (ensure_header w) in
     match f_cur w1 with
     | None => Fault NullDeref                                   (* cannot happen: ensure_row_group *)
@@ -141,7 +156,7 @@ Section FileWriter.
     | Some cws =>
       let '(data, metas, tot_u) := finalize_columns (o_codec (f_opts w)) cws (f_offset w) in
       let size := len data in
-      let rg := mkrg metas (f_cur_rows w) tot_u (f_offset w) size (len (f_groups w)) in
+      let rg := mkrg metas (f_cur_rows w) tot_u (f_offset w) size (ordinal_of (len (f_groups w))) in
       mkfw (f_schema w) (f_opts w) None 0 (f_groups w ++ [rg]) (f_offset w + size)
            (f_total_rows w + f_cur_rows w) (f_header_written w) (f_out w ++ data)
     end.
@@ -174,8 +189,9 @@ Section FileWriter.
     | WClose :: _ => Ok (rev (OK :: acc), fw_close w, true)
     end.
 
+  (** carquet_writer_create (a schema beyond the parser's limits is refused), then the history *)
   Definition run_writer (sch : list column) (o : options) (ops : list wop) : res (list Z * fw * bool) :=
-    run_ops (fw_init sch o) ops [].
+    if schema_fits sch then run_ops (fw_init sch o) ops [] else Err E_CARQUET_ERROR_INVALID_SCHEMA.
 
   Definition all_ok (sts : list Z) : bool := forallb (Z.eqb OK) sts.
 End FileWriter.
